@@ -246,9 +246,9 @@ var minFcsize = [...]uint32{
 var minFcusize = [...]uint32{
 	6,  /* Tversion msize[4] version[s] */
 	6,  /* Rversion msize[4] version[s] */
-	12, /* Tauth fid[4] uname[s] aname[s] */
+	8,  /* Tauth fid[4] uname[s] aname[s] (n_uname[4] optional) */
 	13, /* Rauth aqid[13] */
-	16, /* Tattach fid[4] afid[4] uname[s] aname[s] */
+	12, /* Tattach fid[4] afid[4] uname[s] aname[s] (n_uname[4] optional) */
 	13, /* Rattach qid[13] */
 	0,  /* Terror */
 	6,  /* Rerror ename[s] (ecode[4]) */
@@ -271,6 +271,7 @@ var minFcusize = [...]uint32{
 	4,  /* Tstat fid[4] */
 	4,  /* Rstat stat[n] */
 	8,  /* Twstat fid[4] stat[n] */
+	0,  /* Rwstat */
 	20, /* Tbread fileid[8] offset[8] count[4] */
 	4,  /* Rbread count[4] */
 	20, /* Tbwrite fileid[8] offset[8] count[4] */
